@@ -1,11 +1,7 @@
 """C03 — `check` accepts no operation that violates an implemented validation rule."""
 import vlib
 
-KNOWN = {
-    "unspread-fragment-unchecked",
-    "variable-inside-custom-scalar-literal-unchecked",
-    "duplicate-argument-value-unchecked",
-}
+KNOWN = set()   # every former blind spot of check is repaired in /repo (762f951, 7d19234, 49e8e28, c67e45e)
 
 
 def classify(case, kind):
@@ -37,8 +33,8 @@ def run(ctx):
         ],
         assumptions=[
             "C03 theorems are stated for the sites a spread-following validator reaches from the operations (Spec.v vis_op_sites); "
-            "the positions outside (never-spread fragment definitions, variables inside custom-scalar literals, the second value of a "
-            "repeated argument) are refuted by witness and listed as known findings",
+            "the fragment definitions no operation spreads are validated by the code since commit c67e45e (variable uses excepted): "
+            "the reference validator reads the site rules on them too (rule_ok_roots) on every case; the theorems do not cover that pass yet",
             "the schema passed check (the harness only keeps schemas for which check_type_system_document returns no error)",
         ],
     )
